@@ -465,6 +465,14 @@ def run(pid, tier, replay=None):
     B = 120
     for k in range(0, len(traces), B):
         judge(chk, traces[k:k + B], labels[k:k + B], consts)
+    if pid == "C12":
+        # ---- the broadcast of a found block comes from the miner's thread: the connection's send queue under two threads (SendPath)
+        from checks import sendpath
+        rc = sendpath.stage_threads(chk, quick, rng, pid)
+        if rc:
+            return rc
+        chk.assumptions.append("two-thread schedules of the send path are forced at source-line granularity (sys.settrace) on real threads; "
+                               "the transport is an in-memory socket that accepts the dictated number of bytes")
     chk.assumptions += ["deliveries enter through LocalPeer.handle_remote_peer_selector_event on in-memory sockets; the block store is a real SQLite file",
                         "model-sized consensus constants and stub scrypt as for the ledger family; hash functions ideal in the specification"]
     if chk.traces_validated == 0:
